@@ -1,5 +1,6 @@
 use crate::Stream;
 
+pub mod c02;
 pub mod c03;
 pub mod c04;
 pub mod c07;
@@ -12,6 +13,7 @@ pub mod c11;
 pub mod c12;
 pub mod c14;
 pub mod c15;
+pub mod c16;
 pub mod c17;
 pub mod c18;
 pub mod c19;
@@ -20,6 +22,7 @@ pub mod c20;
 pub fn lookup(name: &str) -> Option<Box<dyn Stream>> {
     match name {
         "c19" => Some(Box::new(c19::C19::new())),
+        "c02" => Some(Box::new(c02::C02::new())),
         "c03" => Some(Box::new(c03::C03::new())),
         "c04" => Some(Box::new(c04::C04::new())),
         "c07" => Some(Box::new(c07::C07::new())),
@@ -27,6 +30,7 @@ pub fn lookup(name: &str) -> Option<Box<dyn Stream>> {
         "c20" => Some(Box::new(c20::C20::new())),
         "c18" => Some(Box::new(c18::C18::new())),
         "c17" => Some(Box::new(c17::C17::new())),
+        "c16" => Some(Box::new(c16::C16::new())),
         "c15" => Some(Box::new(c15::C15::new())),
         "c12" => Some(Box::new(c12::C12::new())),
         "c10" => Some(Box::new(c10::C10::new())),
